@@ -72,6 +72,16 @@ pub fn run<const V: u32>() {
         allow_bind: flag("bind"),
     };
     crate::TRY_FIRST.store(flag("tryfirst"), Ordering::Relaxed);
+    if flag("copydelay") {
+        // C17 in situ: a worker that has won the forwarding race of an object is delayed inside
+        // ObjectModel::copy (the object is "being forwarded"), so that other workers tracing the
+        // same object meet it in that state
+        mmtk::verif::install_sync_hook(Box::new(|site, id| {
+            if site == "copy.before" && (id >> 4) % 3 == 0 {
+                std::thread::sleep(std::time::Duration::from_micros(400));
+            }
+        }));
+    }
     let mode = arg_or("mode", "random");
     match mode.as_str() {
         "random" => {
@@ -218,6 +228,30 @@ pub fn random_program<const V: u32>(d: &mut Driver<V>, p: &Params, pi: u64, nops
     });
     ev(Obj::new("Reset").int("prog", pi as i64));
     let mut bound: Vec<bool> = with_world(|w| w.mutators.iter().map(|m| m.ptr != 0).collect());
+    if flag("copydelay") && !is_nogc {
+        // hub objects: referenced from many roots of every bound mutator and from each other, so
+        // that several workers trace the same object at the same time
+        let ms: Vec<usize> = (0..MAX_MUTATORS).filter(|i| bound[*i]).collect();
+        let m0 = ms[0];
+        for h in 0..3usize {
+            let size = 8 * d.rng.range(6, 40) as usize;
+            let r = d.new_object(m0, h, 0, size, 2, 8, 0, KIND_PLAIN);
+            if r == 0 {
+                break;
+            }
+            for &m in ms.iter() {
+                for j in 0..4usize {
+                    let slot = p.nslots + 3 + 4 * h + j;
+                    let cur = Driver::<V>::root_get(m0, h);
+                    d.set_root(m, slot, cur);
+                }
+            }
+            if h > 0 {
+                let prev = Driver::<V>::root_get(m0, h - 1);
+                d.write_field(m0, h, 0, prev);
+            }
+        }
+    }
     if flag("dense") && pi % 3 == 0 && !is_nogc {
         let m = (0..MAX_MUTATORS).find(|i| bound[*i]).unwrap();
         dense_blocks::<V>(d, p, m);
